@@ -218,6 +218,7 @@ func genMapB(rng *sim.Rng, tier string) *ScenarioB {
 		sc.Ops = append(sc.Ops, Op{K: "idrain", It: stack[len(stack)-1]})
 		stack = stack[:len(stack)-1]
 	}
+	sc.Ops = append(sc.Ops, Op{K: "len"})
 	return sc
 }
 
@@ -727,7 +728,8 @@ func (prop) ExtraPhase(tier string, seed uint64, deadline time.Time) (*driver.Ex
 		out        string
 	}
 	var mu sync.Mutex
-	var viols []found
+	var viols, knownViols []found
+	knownRuns := 0
 	runs, ops, yields := 0, 0, 0
 	detChecks, nondet := 0, 0
 	combos := map[string]int{}
@@ -773,7 +775,14 @@ func (prop) ExtraPhase(tier string, seed uint64, deadline time.Time) (*driver.Ex
 				if len(hashes) < 200000 {
 					hashes[sha256.Sum256([]byte(r.out))] = true
 				}
-				if cls != "" {
+				if cls != "" && sc.KeyT == "arrzs" {
+					// listed finding C06-K4 (the key type's descriptor size is not its
+					// memory stride): kept apart, it does not end the search
+					if len(knownViols) == 0 {
+						knownViols = append(knownViols, found{i, sc, cls, det, r.out})
+					}
+					knownRuns++
+				} else if cls != "" {
 					viols = append(viols, found{i, sc, cls, det, r.out})
 				}
 				mu.Unlock()
@@ -804,6 +813,22 @@ func (prop) ExtraPhase(tier string, seed uint64, deadline time.Time) (*driver.Ex
 		b, _ := json.MarshalIndent(rp, "", " ")
 		er.Violations = append(er.Violations, driver.ExtraViolation{Class: cls, Detail: fmt.Sprintf("[compiled map interpreter, map[%s]%s, %d ops after minimisation] %s", small.KeyT, small.ElemT, len(small.Ops), det), Name: fmt.Sprintf("B-%d", v.idx), Replay: b})
 	}
+	for _, v := range knownViols {
+		small := shrinkB(bin, v.sc, v.cls)
+		rs := runMapB(bin, small)
+		cls, det := judgeMapB(small, rs)
+		if cls != v.cls {
+			small, cls, det, rs = v.sc, v.cls, v.det, runMapB(bin, v.sc)
+		}
+		const k4 = "map-misbehaves-for-array-of-structs-ending-in-zero-size-field"
+		rp := bReplay{Layer: "B", Scenario: small, Class: k4, Detail: "(" + cls + ") " + det, Output: strings.Split(strings.TrimSpace(rs.out), "\n"), ProgramSHA: sum}
+		if len(rp.Output) > 400 {
+			rp.Output = rp.Output[len(rp.Output)-400:]
+		}
+		b, _ := json.MarshalIndent(rp, "", " ")
+		er.Violations = append(er.Violations, driver.ExtraViolation{Class: k4, Detail: fmt.Sprintf("[compiled map interpreter, map[%s]%s, %d ops after minimisation] (%s) %s", small.KeyT, small.ElemT, len(small.Ops), cls, det), Name: fmt.Sprintf("B-%d", v.idx), Replay: b, Tags: []string{"key-type-array-of-structs-ending-in-a-zero-size-field"}})
+	}
+	er.Coverage["histories_matching_listed_finding_C06-K4"] = knownRuns
 	er.Evaluations = runs
 	er.Coverage["histories_run"] = runs
 	er.Coverage["operations"] = ops
@@ -835,5 +860,8 @@ func (prop) ReplayExtra(raw []byte) (string, string, error) {
 	r := runMapB(bin, rp.Scenario)
 	fmt.Print(r.out)
 	cls, det := judgeMapB(rp.Scenario, r)
+	if cls != "" && rp.Scenario.KeyT == "arrzs" {
+		cls, det = "map-misbehaves-for-array-of-structs-ending-in-zero-size-field", "("+cls+") "+det
+	}
 	return cls, det, nil
 }
